@@ -423,6 +423,46 @@ def gen_smiles(rng, ctx):
     return None, rng.choice(SMILES_BAD)
 
 
+def derive_failing_smiles(rng):
+    """A sound SMILES damaged in one place: ring-closure ends that disagree on the bond symbol (every
+    pair of different symbols, directional ones included), a ring left open, an unbalanced or empty
+    branch, a doubled bond symbol, a ring bond from an atom to itself.  Most of them are rejected
+    somewhere in the middle of parsing; whether one is, is for the oracle to say."""
+    data = dataset_smiles()
+    s = rng.choice(data) if data and rng.random() < 0.4 else rng.choice(SMILES_OK)
+    pairs, open_ = [], {}
+    for m in _RING_TOK.finditer(s):
+        if m.group(2) is None:
+            continue
+        if m.group(2) in open_:
+            pairs.append((open_.pop(m.group(2)), m))
+        else:
+            open_[m.group(2)] = m
+    how = rng.choice(("mismatch", "mismatch", "mismatch", "open", "paren", "double", "self", "empty"))
+    if how in ("mismatch", "open", "self") and not pairs:
+        how = "paren"
+    if how == "mismatch":
+        a, b = rng.choice(pairs)
+        x, y = rng.sample(("-", "=", "#", ":", "/", "\\", "-", "/"), 2)
+        if x == y:
+            y = "=" if x != "=" else "#"
+        return s[:a.start()] + x + a.group(2) + s[a.end():b.start()] + y + b.group(2) + s[b.end():]
+    if how == "open":
+        a, b = rng.choice(pairs)
+        return s[:b.start()] + s[b.end():]
+    if how == "self":
+        a, b = rng.choice(pairs)
+        return s[:a.end()] + a.group(2) + s[a.end():]
+    if how == "paren":
+        i = rng.randrange(len(s) + 1)
+        return s[:i] + rng.choice(("(", ")", "()", "(C", "))")) + s[i:]
+    if how == "double":
+        i = rng.randrange(1, len(s) + 1)
+        return s[:i] + rng.choice(("==", "=#", "-=", "//", "=-", "::")) + s[i:]
+    i = rng.randrange(len(s) + 1)
+    return s[:i] + rng.choice(("[]", "[+]", "[H+", "%", "%1", "$")) + s[i:]
+
+
 _RING_TOK = re.compile(r"\[[^\]]*\]|([=#:\-]?)(%\d\d|\d)")
 
 
@@ -662,7 +702,8 @@ class _GenState:
                 yield {"op": "decode", "x": x.replace(self._bad_of(x), ""), "compatible": False, "attribute": False,
                        "why": "after_fail"}
         elif kind == "encode_fail":
-            yield {"op": "encode", "s": rng.choice(SMILES_BAD), "strict": rng.random() < 0.5,
+            bad = derive_failing_smiles(rng) if rng.random() < 0.5 else rng.choice(SMILES_BAD)
+            yield {"op": "encode", "s": bad, "strict": rng.random() < 0.5,
                    "attribute": rng.random() < 0.3, "why": "fail"}
         elif kind == "flood":
             yield {"op": "decode", "x": gen_flood(rng), "compatible": False, "attribute": False, "why": "flood"}
